@@ -443,5 +443,112 @@ func genC10(o *hx.Out, tier string) {
 		scn.CloseWithin(node, 10*time.Second)
 		o.Add("tcp channel, application pauses longer than the idle time-out", verdict, "expect", "ok", fmt.Sprintf("slow-consumer sc=%d", sc))
 	}
+	// ---- datagram transports: one UDP datagram carries many frames (senders coalesce them); a
+	// datagram is one chunk of the stream: every frame of it is delivered, in order, and nothing is
+	// reported as a parse error (finding F13: the part beyond the read buffer used to be discarded) ----
+	mkDatagram := func(k int) []byte {
+		var dg []byte
+		mrw := drw.GetMessage(0)
+		for i := 0; i < k; i++ {
+			m := &minimal.MessageHeartbeat{CustomMode: uint32(i + 1), MavlinkVersion: 3}
+			f := &frame.V2Frame{SequenceNumber: byte(i), SystemID: 9, ComponentID: 1, Message: mrw.Write(m, true)}
+			f.Checksum = f.GenerateChecksum(mrw.CRCExtra())
+			dg = append(dg, frameBytes(drw, f)...)
+		}
+		return dg
+	}
+	judge := func(col *scn.Collector, k int) string {
+		ok := col.Wait(func() bool {
+			for _, ch := range col.Channels() {
+				if countFrames(col.Events(ch)) >= k {
+					return true
+				}
+			}
+			return false
+		})
+		time.Sleep(50 * time.Millisecond)
+		got, perr, order := 0, 0, true
+		for _, ch := range col.Channels() {
+			for _, e := range col.Events(ch) {
+				switch e := e.(type) {
+				case *gomavlib.EventFrame:
+					if hb, isHb := e.Message().(*minimal.MessageHeartbeat); !isHb || int(hb.CustomMode) != got+1 {
+						order = false
+					}
+					got++
+				case *gomavlib.EventParseError:
+					perr++
+				}
+			}
+		}
+		switch {
+		case !ok || got != k:
+			return fmt.Sprintf("FRAMES-LOST %d of %d delivered, %d parse errors", got, k, perr)
+		case !order:
+			return "OUT-OF-ORDER"
+		case perr != 0:
+			return fmt.Sprintf("SPURIOUS-PARSE-ERRORS %d", perr)
+		}
+		return "ok"
+	}
+	sizes := []int{13, 25, 66}
+	if tier == "thorough" {
+		sizes = []int{1, 13, 24, 25, 40, 66, 300}
+	}
+	for si, k := range sizes {
+		dg := mkDatagram(k)
+		// UDP server endpoint: the peer sends the datagram
+		{
+			addr := fmt.Sprintf("127.0.0.1:%d", 27000+int(hx.Seed()%100)*20+si)
+			node, err := gomavlib.NewNode(gomavlib.NodeConf{Endpoints: []gomavlib.EndpointConf{gomavlib.EndpointUDPServer{Address: addr}},
+				Dialect: d, OutVersion: gomavlib.V2, OutSystemID: 10, HeartbeatDisable: true})
+			verdict := "ok"
+			if err != nil {
+				verdict = "NODE-FAILED " + err.Error()
+			} else {
+				col := scn.NewCollector(node, 0, false)
+				peer, err := net.Dial("udp4", addr)
+				if err != nil {
+					verdict = "DIAL-FAILED"
+				} else {
+					peer.Write(dg) //nolint:errcheck
+					verdict = judge(col, k)
+					peer.Close()
+				}
+				scn.CloseWithin(node, 10*time.Second)
+			}
+			o.Add("udp server endpoint, one datagram of many frames", verdict, "expect", "ok", fmt.Sprintf("datagram server frames=%d bytes=%d", k, len(dg)))
+		}
+		// UDP client endpoint: the node speaks first (so that the peer learns its address), the peer answers
+		{
+			pc, err := net.ListenPacket("udp4", "127.0.0.1:0")
+			verdict := "ok"
+			if err != nil {
+				verdict = "LISTEN-FAILED"
+			} else {
+				node, err := gomavlib.NewNode(gomavlib.NodeConf{Endpoints: []gomavlib.EndpointConf{gomavlib.EndpointUDPClient{Address: pc.LocalAddr().String()}},
+					Dialect: d, OutVersion: gomavlib.V2, OutSystemID: 10, HeartbeatDisable: true})
+				if err != nil {
+					verdict = "NODE-FAILED " + err.Error()
+				} else {
+					col := scn.NewCollector(node, 0, false)
+					col.Wait(func() bool { return len(col.Channels()) > 0 })
+					node.WriteMessageAll(&minimal.MessageHeartbeat{MavlinkVersion: 3}) //nolint:errcheck
+					buf := make([]byte, 2048)
+					pc.SetReadDeadline(time.Now().Add(5 * time.Second)) //nolint:errcheck
+					_, from, err := pc.ReadFrom(buf)
+					if err != nil {
+						verdict = "NODE-SILENT"
+					} else {
+						pc.WriteTo(dg, from) //nolint:errcheck
+						verdict = judge(col, k)
+					}
+					scn.CloseWithin(node, 10*time.Second)
+				}
+				pc.Close()
+			}
+			o.Add("udp client endpoint, one datagram of many frames", verdict, "expect", "ok", fmt.Sprintf("datagram client frames=%d bytes=%d", k, len(dg)))
+		}
+	}
 	runtime.GOMAXPROCS(runtime.NumCPU())
 }
